@@ -33,24 +33,56 @@ def ep_key(ep):
     return jnp.asarray([0, ep], dtype=jnp.uint32)
 
 
-def dump_states(module, cfg, var="s", limit=None, workers=4, timeout=1200):
-    wd = os.path.join(WORK, f"inject-{module}-{os.getpid()}")
-    os.makedirs(wd, exist_ok=True)
-    dump = os.path.join(wd, "states.dump")
-    r = tlc.run_mc(module, cfg, wd, workers=workers, timeout=timeout, dump=dump)
-    if not r.ok:
-        shutil.rmtree(wd, ignore_errors=True)
-        raise RuntimeError(f"TLC dump of {module}/{cfg} failed: {r.error or r.violated}\n{r.out_tail[-800:]}")
-    states = tlaval.parse_dump(dump)
-    shutil.rmtree(wd, ignore_errors=True)
-    seen, out = set(), []
-    for st in states:
-        v = st.get(var) if var else st
-        k = repr(v)
-        if k in seen:
-            continue
-        seen.add(k)
-        out.append(v)
-        if limit and len(out) >= limit:
-            break
+def dump_states(module, cfg, var="s", limit=None, workers=None, timeout=5400):
+    """Reachable states of spec/mc/<module>.tla under cfg, as parsed by tlaval (deduplicated on `var`, or whole states when
+    var is None). The parsed dump is cached on disk, keyed by the hash of the specifications and the harness (it does not
+    depend on the code under test); concurrent recorders asking for the same dump wait for the first one."""
+    import fcntl
+    import json
+
+    from harness.common import CACHE, NCPU, harness_hash
+
+    d = os.path.join(CACHE, "dumps")
+    os.makedirs(d, exist_ok=True)
+    base = os.path.join(d, f"{module}-{os.path.basename(cfg)}-{var}-{harness_hash()}")
+    import time as _t
+
+    for fn in os.listdir(d):          # dumps of other versions of the specifications, unused for three hours
+        fp = os.path.join(d, fn)
+        try:
+            if harness_hash() not in fn and _t.time() - os.path.getmtime(fp) > 10800:
+                os.remove(fp)
+        except OSError:
+            pass
+    with open(base + ".lock", "w") as lk:
+        fcntl.flock(lk, fcntl.LOCK_EX)
+        if os.path.exists(base + ".json"):
+            with open(base + ".json") as f:
+                cached = json.load(f)
+            out, r = cached["states"], tlc.MCResult()
+            r.ok, r.distinct, r.states = True, cached["distinct"], cached["generated"]
+        else:
+            wd = os.path.join(WORK, f"inject-{module}-{os.getpid()}")
+            os.makedirs(wd, exist_ok=True)
+            dump = os.path.join(wd, "states.dump")
+            r = tlc.run_mc(module, cfg, wd, workers=workers or max(4, NCPU // 2), timeout=timeout, dump=dump)
+            if not r.ok:
+                shutil.rmtree(wd, ignore_errors=True)
+                raise RuntimeError(f"TLC dump of {module}/{cfg} failed: {r.error or r.violated}\n{r.out_tail[-800:]}")
+            states = tlaval.parse_dump(dump)
+            shutil.rmtree(wd, ignore_errors=True)
+            seen, out = set(), []
+            for st in states:
+                v = st.get(var) if var else st
+                k = repr(v)
+                if k in seen:
+                    continue
+                seen.add(k)
+                out.append(v)
+            tmp = base + f".tmp{os.getpid()}"
+            with open(tmp, "w") as f:
+                json.dump({"states": out, "distinct": r.distinct, "generated": r.states}, f)
+            os.replace(tmp, base + ".json")
+    if limit:
+        out = out[:limit]
     return out, r
